@@ -24,6 +24,7 @@ import (
 	"os"
 	"sort"
 	"strings"
+	"sync/atomic"
 	"time"
 
 	"github.com/cube2222/octosql/execution"
@@ -40,6 +41,25 @@ func init() { core.Register("C17", Run) }
 const findingKey = "watermark-trigger-time-eq"
 
 var selftest = os.Getenv("VERIF_SELFTEST") == "1"
+
+// A systematically broken tree would otherwise produce millions of violations (each of which
+// core records): after violationCap unattributed ones the remaining cases are skipped; the
+// verdict is "violated" anyway.
+var violationCap int64 = 300
+
+var unattributed int64
+
+func report(c *core.Ctx, key, what string, replay interface{}) {
+	if !c.IsKnown(key) {
+		if atomic.AddInt64(&unattributed, 1) > violationCap {
+			c.Count("violations_beyond_cap_not_recorded", 1)
+			return
+		}
+	}
+	c.Violation(key, what, replay)
+}
+
+func capped() bool { return atomic.LoadInt64(&unattributed) > violationCap }
 
 // =============================================================================================
 // Part (a): trigger objects against the reference models
@@ -144,6 +164,9 @@ type aStats struct {
 // runSeqA replays one sequence on a fresh real trigger and a fresh model, polling after every
 // event (as CustomTriggerGroupBy does) and comparing the two results as multisets.
 func runSeqA(c *core.Ctx, cfg trigh.Config, v keyVariant, seq []byte, st *aStats, corrupt bool) {
+	if capped() {
+		return
+	}
 	st.evals++
 	real := cfg.Prototype(v.tIndex)()
 	model := trigh.NewModel(cfg)
@@ -199,7 +222,7 @@ func runSeqA(c *core.Ctx, cfg trigh.Config, v keyVariant, seq []byte, st *aStats
 				key = findingKey
 				st.known++
 			}
-			c.Violation(key, fmt.Sprintf("after event #%d of [%s] real Poll = %s, reference = %s", i, seqString(seq), countsString(gm), countsString(wm)), replay)
+			report(c, key, fmt.Sprintf("after event #%d of [%s] real Poll = %s, reference = %s", i, seqString(seq), countsString(gm), countsString(wm)), replay)
 			return
 		}
 	}
@@ -323,7 +346,7 @@ func partA(c *core.Ctx) {
 		idx := 0
 		seqsPerJob[i] = enumerateA(j.L, func(seq []byte) {
 			idx++
-			corrupt := selftest && idx%5000 == 0
+			corrupt := selftest && idx%40000 == 0
 			runSeqA(c, j.cfg, j.v, seq, st, corrupt)
 		})
 		c.Eval(st.evals)
@@ -399,7 +422,7 @@ func (e ev) String() string {
 	}
 	loc := ""
 	if e.r.loc != nil && e.r.loc != time.UTC {
-		loc = "[" + trigh.Tick(e.r.tick).In(e.r.loc).Format("-07:00") + fmt.Sprintf("/%p", e.r.loc) + "]"
+		loc = "[" + trigh.LocName(e.r.loc) + "]"
 	}
 	return fmt.Sprintf("%s(%s,%d%s,%d)", sign, e.r.k, e.r.tick, loc, e.r.v)
 }
@@ -448,12 +471,12 @@ type group struct {
 
 type sim struct {
 	sh       shape
-	steps    int                       // len(evs)+1 (the last step is end of stream)
-	due      []map[string][]string     // per step: group id -> states (row key or "" = no row) due to be emitted, in order
+	steps    int                          // len(evs)+1 (the last step is end of stream)
+	due      []map[string][]string        // per step: group id -> states (row key or "" = no row) due to be emitted, in order
 	seen     []map[string]map[string]bool // per step: group id -> states the group had during the step
-	endState []map[string]string       // per step: group id -> row at the end of the step (absent = no row)
-	gTick    map[string]int            // group id -> tick of its time component (shapes with a time key)
-	gTimes   map[string][]time.Time    // group id -> time values received (for the collision predicate)
+	endState []map[string]string          // per step: group id -> row at the end of the step (absent = no row)
+	gTick    map[string]int               // group id -> tick of its time component (shapes with a time key)
+	gTimes   map[string][]time.Time       // group id -> time values received (for the collision predicate)
 	gRest    map[string]string
 }
 
@@ -610,6 +633,9 @@ func outKeyID(sh shape, o nodeh.Out) string {
 }
 
 func judgeB(c *core.Ctx, cs caseB, corruptMode int) {
+	if capped() {
+		return
+	}
 	corrupt := corruptMode != 0
 	c.Eval(1)
 	sql := cs.sh.sel + cs.cfg.Clause()
@@ -617,16 +643,16 @@ func judgeB(c *core.Ctx, cs caseB, corruptMode int) {
 	_, outs, res, perr := trigh.RunSteps(context.Background(), sql, tableFields, cs.sh.timeField, events, true)
 	replay := map[string]interface{}{"id": cs.id, "part": "node", "sql": sql, "shape": cs.sh.name, "input": evsString(cs.evs), "input_events": nodeh.EventsString(events)}
 	if perr != nil {
-		c.Violation("plan-error:"+perr.Stage, "query was rejected: "+perr.Error(), replay)
+		report(c, "plan-error:"+perr.Stage, "query was rejected: "+perr.Error(), replay)
 		return
 	}
 	replay["output"] = nodeh.OutsString(outs)
 	if res.Panicked {
-		c.Violation("panic:"+core.PanicSite(res.Stack), "group-by panicked: "+res.PanicMsg, replay)
+		report(c, "panic:"+core.PanicSite(res.Stack), "group-by panicked: "+res.PanicMsg, replay)
 		return
 	}
 	if res.Err != nil {
-		c.Violation("error", "query returned error: "+res.Err.Error(), replay)
+		report(c, "error", "query returned error: "+res.Err.Error(), replay)
 		return
 	}
 	if corruptMode == 1 {
@@ -709,11 +735,21 @@ func judgeB(c *core.Ctx, cs caseB, corruptMode int) {
 			got := obs[step][g]
 			dueTotal += len(due)
 			emissions += len(got)
-			// (1) nothing is emitted for a key no trigger fired in this step. Judged for the
-			// single-trigger configurations only: in a multi-trigger, re-emissions of an unchanged
-			// row are explicitly not violations (DESIGN 3.4); (2) still applies to them.
-			if single && len(due) == 0 && len(got) > 0 {
+			// (1) nothing is emitted for a key no trigger fired in this step. Judged where the
+			// statement says so: single COUNTING n ("an emission at a step that is not the n-th
+			// record") and single END OF STREAM ("once, at the end"). In a multi-trigger,
+			// re-emissions of an unchanged row are explicitly not violations (DESIGN 3.4); in the
+			// watermark-only configuration the statement forbids keys BEYOND the watermark only.
+			if exact && len(due) == 0 && len(got) > 0 {
 				fails = append(fails, failure{"not-due", g, step, fmt.Sprintf("step %d: %d record(s) emitted for key %s although no trigger was due for it", step, len(got), g)})
+			}
+			if single && cs.cfg.Has('W') && step < m && len(got) > 0 {
+				// watermark-only: before the end, a key may be emitted only in the step of a
+				// watermark that has reached its time
+				e := cs.evs[step]
+				if !e.isWM || s.gTick[g] > e.wm {
+					fails = append(fails, failure{"wm-beyond", g, step, fmt.Sprintf("step %d (%s): key %s emitted although no watermark has reached its time (watermark-only configuration)", step, e.String(), g)})
+				}
 			}
 			// (2) every inserted row is a result the key had during this step
 			traj := []string{sent[g]}
@@ -872,7 +908,7 @@ func judgeB(c *core.Ctx, cs caseB, corruptMode int) {
 		for _, key := range sortedKeysF(byKey) {
 			fs := byKey[key]
 			replay["failures"] = len(fs)
-			c.Violation(key, fs[0].what, replay)
+			report(c, key, fs[0].what, replay)
 		}
 		return
 	}
@@ -1198,6 +1234,9 @@ func replayID(c *core.Ctx) {
 
 func Run(c *core.Ctx) core.FinishOpts {
 	replayID(c)
+	if selftest {
+		violationCap = 5000
+	}
 	t0 := time.Now()
 	partA(c)
 	c.Note("info_wall_part_a_s", time.Since(t0).Seconds())
